@@ -57,7 +57,11 @@ class Device:
         self.violations = []           # protocol / safety invariants broken by the host
         self.requests = []             # trace
         self.dnloads = 0
-        self.serial_number = ('3C%sJ' % SIZE_LETTER[page_count]).encode('ascii').decode('utf-16-le')
+        # GD32 quirk: the serial number string is ASCII packed two characters per UTF-16 unit; its THIRD character is the density
+        # code.  What follows differs from part to part and may well contain another density letter ('3C4B': a 16 KiB part).
+        suffix = schedule.get('serial_suffix', 'J')
+        assert len(suffix) % 2 == 1
+        self.serial_number = ('3C%s%s' % (SIZE_LETTER[page_count], suffix)).encode('ascii').decode('utf-16-le')
         self.pending_status = 0
 
     # -- helpers ---------------------------------------------------------------------------------------
